@@ -28,7 +28,7 @@ def required(tier):
     b = {f'route:{r}': 3 for r in ROUTES}
     b.update({f'units:{u}': 3 for u in UNITS})
     b.update({'orient:asc': 10, 'orient:desc': 10, 'twin': 5, 'same-numbers-other-flag': 100, 'df:negative-argument': 10, 'history:retimed': 20,
-              'history:phased-time-profile': 20, 'history:smeared-injection': 20})
+              'history:phased-time-profile': 20, 'history:smeared-injection': 20, 'history:smeared-cadence-injection': 20})
     return {'buckets': b, 'counters': {'invariant_evals': 100, 'roundtrip_channels': 1000}, 'checks': 500}
 
 
@@ -165,7 +165,14 @@ def run_case(c, R):
     def on_fail(method, prob):
         R.violate('invariant:' + prob[0], after=method, **prob[1])
 
-    attach.invariant(stg.Frame, axes_problem, on_fail, counter=inv,
+    in_cad = [0]          # Cadence.add_signal legitimately shifts a member's time axis for the duration of the inner call
+
+    def cond(fr_):
+        prob_ = axes_problem(fr_)
+        return None if (prob_ and prob_[0].startswith('ts-') and in_cad[0]) else prob_
+    attach.wrap(stg.Cadence, 'add_signal', pre=lambda a_, k_: in_cad.__setitem__(0, in_cad[0] + 1),
+                post=lambda a_, k_, r_, e_, t_: in_cad.__setitem__(0, in_cad[0] - 1))
+    attach.invariant(stg.Frame, cond, on_fail, counter=inv,
                      methods=['__init__', 'add_noise', 'add_signal', 'add_constant_signal', 'zero_data',
                               'get_slice', 'add_metadata', 'get_index', 'get_frequency', 'copy'])
     try:
@@ -174,7 +181,7 @@ def run_case(c, R):
         # short op history under the invariant
         if fr.fchans * fr.tchans <= 300000:
             for _ in range(int(rng.integers(1, 6))):
-                op = int(rng.integers(8))
+                op = int(rng.integers(9))
                 if op == 0:
                     if round(fr.df * fr.dt) >= 1:
                         fr.add_noise(x_mean=10.0)
@@ -220,6 +227,23 @@ def run_case(c, R):
                                   stg.sine_t_profile(period=float(rng.uniform(2, 20)) * fr.dt, phase=float(rng.uniform(0.5, 40)) * fr.dt,
                                                      amplitude=0.5, level=1.0),
                                   stg.gaussian_f_profile(width=3 * fr.df), stg.constant_bp_profile(level=1.0))
+                elif op == 8:
+                    # the frame as a LATER member of a cadence that injects a smeared drifting signal (the cadence shifts the member's
+                    # time axis for the duration of the call): afterwards the frame's own axes -- the extended one included -- are its own
+                    R.bucket('history:smeared-cadence-injection')
+                    lead = stg.Frame(fchans=fr.fchans, tchans=int(rng.integers(1, 5)), df=fr.df, dt=fr.dt, fch1=fr.fch1,
+                                     ascending=fr.ascending, t_start=float(fr.t_start) - 500.0 - float(rng.uniform(0, 1e3)))
+                    # ... and a second later member that nobody has looked at yet (the monitor's own reads of this frame's axes are
+                    # part of ITS history: a lazily built axis is already built)
+                    unseen = stg.Frame(fchans=fr.fchans, tchans=int(rng.integers(1, 5)), df=fr.df, dt=fr.dt, fch1=fr.fch1,
+                                       ascending=fr.ascending, t_start=float(fr.t_start) + 900.0 + float(rng.uniform(0, 1e3)))
+                    cad_ = stg.Cadence([lead, fr, unseen])
+                    cad_.add_signal(stg.constant_path(f_start=fr.get_frequency(int(rng.integers(fr.fchans))),
+                                                      drift_rate=float(rng.normal()) * 2 * fr.unit_drift_rate),
+                                    stg.constant_t_profile(level=1.0), stg.gaussian_f_profile(width=3 * fr.df),
+                                    stg.constant_bp_profile(level=1.0), doppler_smearing=True, smearing_subsamples=3)
+                    _derived(lead, R, 'history:')
+                    _derived(unseen, R, 'history:unseen-member:')
                 else:
                     R.bucket('history:smeared-injection')
                     fr.add_constant_signal(f_start=fr.get_frequency(int(rng.integers(fr.fchans))),
